@@ -53,7 +53,14 @@ Inductive c11_case :=
 (* KWrapFault: the metrics wrapper over an engine that fails one call (0 Get, 1 Del, 2 DelCurrent, 3 Commit, 4 Iter)
    with an error of class `injected`; the class the wrapper's caller sees, and whether the stored record is still
    there afterwards.  The wrapper model is a pass-through: the error must arrive unchanged in class. *)
-| KWrapFault (kind : N) (injected observed : rclass) (intact : bool).
+| KWrapFault (kind : N) (injected observed : rclass) (intact : bool)
+(* KSnapshot: n records stored; an iterator over all of them is opened (fwd or backward), `before` records are read,
+   one batch {Put k_3, Put k_(n/2), Del k_(n-4)} is committed, the iterator is drained.  Against the content at the
+   moment the iterator was created: how many of its records are missing from (or altered in) the drained sequence,
+   how many drained records were not in it, whether the sequence is strictly monotone in the requested direction;
+   and whether the batch is in effect afterwards.  The iterators of the adapter models are functions of the state at
+   creation, so the model's answer is: nothing missing, nothing extra, in order. *)
+| KSnapshot (e : eng) (n : N) (fwd : bool) (before : N) (missing extra : N) (inorder applied : bool).
 
 (* ---------- running a sequence on an adapter model ---------- *)
 
@@ -150,6 +157,7 @@ Definition c11_check (c : c11_case) : bool :=
       list_eqb obs_eqb obs (map snd steps) && store_eqb (a_dump A sf) final
   | KBigBatch _ n _ failing c visible => big_check failing n c visible
   | KWrapFault _ injected observed intact => rclass_eqb observed injected && intact
+  | KSnapshot _ _ _ _ missing extra inorder applied => (missing =? 0) && (extra =? 0) && inorder && applied
   end.
 
 (* ---------- the property: the observation against the contract, under the C11 projection ---------- *)
@@ -281,4 +289,5 @@ Definition c11_oracle (c : c11_case) : option N :=
       end
   | KBigBatch _ n _ failing c visible => big_oracle failing n c visible
   | KWrapFault _ injected observed intact => ok_if (rclass_eqb observed injected && intact)
+  | KSnapshot _ _ _ _ missing extra inorder applied => ok_if ((missing =? 0) && (extra =? 0) && inorder && applied)
   end.
